@@ -1192,6 +1192,26 @@ pub mod __macro_support {
         }
     }
 
+    /// Verification hooks (only with `--cfg tracing_verif`): read and write the
+    /// two private atomics, so that a model checker can start from the
+    /// registration states that only a concurrent run produces.
+    #[cfg(tracing_verif)]
+    impl<T: 'static> MacroCallsite<T> {
+        #[doc(hidden)]
+        pub fn __verif_set_state(&self, register: u8, interest: u8) {
+            self.register.store(register, Ordering::SeqCst);
+            self.interest.store(interest, Ordering::SeqCst);
+        }
+
+        #[doc(hidden)]
+        pub fn __verif_state(&self) -> (u8, u8) {
+            (
+                self.register.load(Ordering::SeqCst),
+                self.interest.load(Ordering::SeqCst),
+            )
+        }
+    }
+
     impl fmt::Debug for MacroCallsite {
         fn fmt(&self, f: &mut fmt::Formatter<'_>) -> fmt::Result {
             f.debug_struct("MacroCallsite")
